@@ -1,0 +1,112 @@
+//! Verification hooks (cargo feature `verif`, off by default).
+//!
+//! Crash points, a reorg observer, a per-index override of the first
+//! inscription height, and wrappers over crate-private pure functions.
+//! With the feature off none of this is compiled.
+
+use super::*;
+
+pub use crate::index::verif::*;
+
+// H2: crash points. `ORD_VERIF_CRASH=<name>:<nth>` aborts the process the
+// nth time (1-based) the named point is reached.
+
+static CRASH: LazyLock<Option<(String, u64)>> = LazyLock::new(|| {
+  let value = env::var("ORD_VERIF_CRASH").ok()?;
+  let (name, nth) = value.rsplit_once(':')?;
+  Some((name.into(), nth.parse().ok()?))
+});
+
+static CRASH_COUNT: atomic::AtomicU64 = atomic::AtomicU64::new(0);
+
+pub const CRASH_POINTS: &[&str] = &[
+  "block.before",
+  "block.after_utxo",
+  "block.after_runes",
+  "commit.before",
+  "commit.after_first",
+  "commit.after_second",
+  "savepoint.before_delete",
+  "savepoint.after_delete_commit",
+  "savepoint.after_create",
+  "savepoint.after_create_commit",
+  "reorg.before_restore",
+  "reorg.after_restore",
+  "reorg.after_commit",
+];
+
+pub fn crash_point(name: &str) {
+  if let Some((armed, nth)) = &*CRASH
+    && armed == name
+    && CRASH_COUNT.fetch_add(1, atomic::Ordering::SeqCst) + 1 == *nth
+  {
+    eprintln!("ORD_VERIF_CRASH: aborting at {name}:{nth}");
+    process::abort();
+  }
+}
+
+// H3: reorg observer, per thread (rollbacks run on the thread that called
+// `Index::update`). Returning an error aborts the update with that error.
+
+thread_local! {
+  static REORG_OBSERVER: std::cell::RefCell<Option<Box<dyn FnMut(u32, u32) -> Result<()>>>> =
+    const { std::cell::RefCell::new(None) };
+}
+
+pub fn set_reorg_observer(observer: Option<Box<dyn FnMut(u32, u32) -> Result<()>>>) {
+  REORG_OBSERVER.with(|cell| *cell.borrow_mut() = observer);
+}
+
+pub(crate) fn reorg_event(height: u32, depth: u32) -> Result<()> {
+  REORG_OBSERVER.with(|cell| match cell.borrow_mut().as_mut() {
+    Some(observer) => observer(height, depth),
+    None => Ok(()),
+  })
+}
+
+// H4: per-index override of the first inscription height, keyed by index
+// path, so that a regtest index can be a non-full UTXO index.
+
+static FIRST_INSCRIPTION_HEIGHT: Mutex<BTreeMap<PathBuf, u32>> = Mutex::new(BTreeMap::new());
+
+pub fn set_first_inscription_height(index_path: &Path, height: Option<u32>) {
+  let mut map = FIRST_INSCRIPTION_HEIGHT.lock().unwrap();
+  match height {
+    Some(height) => {
+      map.insert(index_path.into(), height);
+    }
+    None => {
+      map.remove(index_path);
+    }
+  }
+}
+
+pub(crate) fn first_inscription_height(index_path: Option<&Path>) -> Option<u32> {
+  FIRST_INSCRIPTION_HEIGHT
+    .lock()
+    .unwrap()
+    .get(index_path?)
+    .copied()
+}
+
+// H6: inscription properties.
+
+pub fn properties_from_cbor(cbor: &[u8]) -> Properties {
+  Properties::from_cbor(cbor)
+}
+
+pub fn properties_to_inline_cbor(properties: &Properties) -> Option<Vec<u8>> {
+  properties.to_inline_cbor()
+}
+
+pub fn properties_to_packed_cbor(properties: &Properties) -> Option<Vec<u8>> {
+  properties.to_packed_cbor()
+}
+
+pub fn inscription_properties(inscription: &Inscription) -> Properties {
+  inscription.properties()
+}
+
+// H7: rune split transaction construction.
+
+pub use crate::subcommand::wallet::split::verif_build_transaction as split_build_transaction;
